@@ -36,7 +36,7 @@ def norm(sv):
 
 class Prop(BaseProp):
     coq_targets = ['ND/Proofs/C17_proofs.vo']
-    extra_model_targets = ['ND/Hand/PyWrap.vo']
+    extra_model_targets = ['ND/Hand/PyWrap.vo', 'gen/Gen_PyWrap.vo']
     n_quick, n_thorough = 420, 6000
 
     # ---------------------------------------------------------------------------------------------
